@@ -131,6 +131,20 @@ def jobs(tier, seed=0):
             A(lambda Bb=Bb, H=H, f=f, sw=sw, dv=dv, hv=hv, tag=tag, ig=ig:
               L.pkdpk_inst("Packetizer>Depacketizer/" + tag, Bb, H, f, sw, dv[:2] if Bb == 1 else [dv[1], dv[2]],
                            hv[:2], idle_garbage=ig))
+    # ---- the optional `error` field: combinational pass-through beside the FSM (both endpoints have it), or a
+    #      source-only field that stays 0
+    dv1, dv2 = bit_per_byte(1), bit_per_byte(2)
+    A(lambda: L.packetizer_inst("Packetizer/dw8/H1/error", 1, 1, H1, False, dv1, hvals(H1, 1, (0, 1)), error="both"))
+    A(lambda: L.packetizer_inst("Packetizer/dw16/H3/error", 2, 3, H3, True, dv2[:2], hvals(H3, 3, (1, 6)),
+                                error="both"))
+    A(lambda: L.depacketizer_inst("Depacketizer/dw16/H3/error", 2, 3, H3, True, dv2[:3], error="both"))
+    A(lambda: L.packetizer_inst("Packetizer/dw8/H2/error on source only", 1, 2, H2, True, dv1,
+                                hvals(H2, 2, (1, 2)), error="source"))
+    A(lambda: L.depacketizer_inst("Depacketizer/dw8/H2/error on source only", 1, 2, H2, True, dv1, error="source"))
+    B(lambda: L.packetizer_inst("Packetizer/eth/dw32/H14/error", 4, 14, ETH_LIKE, True, garbage="hold", min_len=2,
+                                max_len=12, alphabet=False, error="both"))
+    B(lambda: L.depacketizer_inst("Depacketizer/eth/dw32/H14/error", 4, 14, ETH_LIKE, True, alphabet=False,
+                                  garbage="random", max_len=3 + 2 + 12, error="both"))
     # ---- PacketFIFO ---------------------------------------------------------------------------------------
     # tokens (data, param, last).  T4 distinguishes data, param and last; T2 exercises the occupancy logic only
     # (every stored word of a deeper FIFO multiplies the implementation states by the number of token values)
@@ -139,7 +153,7 @@ def jobs(tier, seed=0):
     T2 = [(0, 0, 0), (1, 1, 1)]
     T3 = [(0, 0, 0), (1, 0, 1), (0, 1, 1)]
     A(lambda: L.packetfifo_inst("PacketFIFO(2)", 2, tokens=T3 if quick else T4, legacy=True))
-    A(lambda: L.packetfifo_inst("PacketFIFO(2)/all-depths model", 2, tokens=T3))
+    A(lambda: L.packetfifo_inst("PacketFIFO(2)/all-depths model", 2, tokens=T2 if quick else T4))
     A(lambda: L.packetfifo_inst("PacketFIFO(3)/T2", 3, tokens=T2))
     A(lambda: L.packetfifo_inst("PacketFIFO(4,param_depth=1)/T2", 4, 1, tokens=T2))
     A(lambda: L.packetfifo_inst("PacketFIFO(2,buffered)", 2, buffered=True, tokens=T2 if quick else T3, legacy=True))
@@ -151,6 +165,11 @@ def jobs(tier, seed=0):
     A(lambda: L.packetfifo_inst("PacketFIFO(1,param_depth=2,buffered)/T2", 1, 2, buffered=True, tokens=T2))
     A(lambda: L.packetfifo_inst("PacketFIFO(2,param_depth=0)", 2, 0, tokens=T3))
     A(lambda: L.packetfifo_inst("PacketFIFO(0)", 0, tokens=T3))
+    # layout without params: the `dummy` param path of the constructor
+    A(lambda: L.packetfifo_inst("PacketFIFO(2)/no params", 2, tokens=[(0, 0, 0), (1, 0, 0), (0, 0, 1), (1, 0, 1)],
+                                noparam=True))
+    B(lambda: L.packetfifo_inst("PacketFIFO(5,buffered)/no params/8b", 5, buffered=True, dwid=8, alphabet=False,
+                                overlong_from=OV, noparam=True))
     A(lambda: L.packetfifo_inst("PacketFIFO(0,buffered)", 0, buffered=True, tokens=T3))
     # candidate finding (buffered payload FIFO + PipeValid param queue): model comparison only
     A(lambda: L.packetfifo_inst("defect-region/PacketFIFO(2,param_depth=0,buffered)", 2, 0, buffered=True, tokens=T3))
@@ -354,14 +373,21 @@ def header_tie(ctx, ntables):
 ASSUMPTIONS = [
     "Packetizer / round-trip theorems: the producer obeys the stream contract (a beat offered and not accepted is "
     "offered again unchanged); nothing is assumed about source.ready or about the lines while valid = 0",
-    "Packetizer / Depacketizer / round-trip theorems are proved for headers that are a whole number of beats "
-    "(H % B = 0, every data width and header length); the unaligned machines are modelled and compared with the "
-    "code exhaustively (small instances) and by monitored random runs, their residue theorem is open",
-    "header_roundtrip needs non-overlapping fields and, with swap_field_bytes, field widths <= 8 or multiples of 8 "
-    "(finding C16-header-swap-odd-width); fields reaching beyond the header length and the _lsb/_msb name "
-    "convention of Header.get_field are not modelled",
-    "PacketFIFO is modelled for payload_depth >= 2 (Migen SyncFIFO); Arbiter for >= 2 masters, Dispatcher for >= 2 "
-    "slaves or one_hot (the other cases are plain Endpoint.connect)",
+    "aligned headers (H % B = 0): Packetizer / Depacketizer / round trip proved for every data width and header "
+    "length; unaligned headers with H >= B: proved under UOk2 (no single-beat packets; in a pause with "
+    "source.ready = 1 strictly inside a packet the `last` line is low and the top H%B data bytes are held) and "
+    "udWellFormed2 (no `last` on the final header beat or on the residue beat) - exactly the regions of the open "
+    "findings; H < B excluded (finding C16-header-shorter-than-beat)",
+    "header_roundtrip needs non-overlapping fields inside the header length and, with swap_field_bytes, field "
+    "widths <= 8 or multiples of 8 (finding C16-header-swap-odd-width); overlapping tables and fields beyond the "
+    "length are modelled (encodeL/decodeL), characterised by theorems (last writer wins, clipped fields) and tied; "
+    "the _lsb/_msb name convention and the width check of Header.get_field are modelled and tied",
+    "PacketFIFO is modelled for every payload_depth / param_depth (wire, PipeValid register, SyncFIFO, "
+    "SyncFIFOBuffered); the atomicity theorem excludes buffered=True with payload_depth >= 2 and param_depth = 0 "
+    "(candidate finding, modelled faithfully and compared without monitor); Arbiter / Dispatcher for every port "
+    "count incl. 0 and 1 (plain Endpoint.connect) as the constructors build them",
+    "the optional `error` payload field of Packetizer / Depacketizer is a combinational pass-through (modelled as "
+    "a wrapper of the port encoding, compared exhaustively on small instances)",
 ]
 
 
@@ -475,6 +501,16 @@ def probe_packetfifo_param_dup():
     return r
 
 
+def probe_packetfifo_buffered_param_depth0():
+    """Candidate finding C16-packetfifo-buffered-param-depth0: PacketFIFO(payload_depth >= 2, param_depth = 0,
+    buffered=True) - the param queue is a PipeValid register (readable one cycle after the push), the payload
+    queue a SyncFIFOBuffered (readable two cycles after): source.valid with the stale payload output register."""
+    inst = L.packetfifo_inst("PacketFIFO(2,0,buffered)/probe", 2, 0, buffered=True, dwid=8, pwid=8, alphabet=False)
+    #        v  data  param last ready
+    trace = [(1, 107, 48, 1, 1), (0, 0, 0, 0, 1), (0, 0, 0, 0, 1), (0, 0, 0, 0, 1), (0, 0, 0, 0, 1)]
+    return _run_trace(inst, trace)
+
+
 def probe_single_beat_unaligned():
     inst = L.packetizer_inst("Packetizer/dw16/H3/probe", 2, 3, H3, False, alphabet=False)
     #        v  data   last a     b      ready
@@ -554,6 +590,9 @@ PROBES = [
      "bytes, its `last` terminates the packet)"),
     ("C16-depacketizer-residue-end", probe_depacketizer_residue_end,
      "Depacketizer, unaligned header: packet ending inside the residue beat swallows the next packet's first beat"),
+    ("C16-packetfifo-buffered-param-depth0", probe_packetfifo_buffered_param_depth0,
+     "PacketFIFO(buffered=True, payload_depth >= 2, param_depth = 0): source.valid one cycle before the payload "
+     "output register is loaded - a beat that was never accepted is delivered"),
     ("C16-header-swap-odd-width", probe_swap_odd_width,
      "Header with swap_field_bytes: field wider than 8 bits and not a whole number of bytes does not round-trip"),
 ]
